@@ -168,12 +168,18 @@ def gen_cases(tier, seed):
         outside = []
         if rng.chance(1, 2):
             outside = dedup([gen_entry(rng, 2, 90 + j) for j in range(rng.range(1, 3))])
-        spelling = rng.choice(["d", "d", ".", "./d/", "./d", "d/"])
+        # DIR as the user spells it: plain, with ./ and trailing slashes, `.` from inside, through a symbolic link to it
+        spelling = rng.choice(["d", "d", ".", "./d/", "./d", "d/", "dl", "dl/"])
         batch = rng.weighted([("fault_free", 2), ("benign", 5), ("hard", 3)])
         prng = Rng(derive(seed, PROP, "plan", k))
         plan = gen_plan(prng, batch, len(tree))
         streams = prng.choice(["pipes", "one"])
-        yield make_case("r%d" % k, batch, tree, outside, spelling, plan, streams)
+        c = make_case("r%d" % k, batch, tree, outside, spelling, plan, streams)
+        if prng.chance(1, 4):
+            # the inherited PWD names another directory than the one the command is started in (env -C, make -C, cwd= of a
+            # parent process); that other directory has a `d` with bytecode files of its own
+            c["stale_pwd"] = True
+        yield c
 
 
 # ------------------------------------------------------------------- execution
@@ -236,9 +242,19 @@ def run_case(case):
         cwd, arg = ddir, "."
     else:
         cwd, arg = root, spelling
+    os.symlink("d", os.path.join(root, "dl"))
+    xenv = {}
+    if case.get("stale_pwd"):
+        decoy = os.path.join(root, "elsewhere")
+        os.makedirs(os.path.join(decoy, "d"))
+        for nm in ("x.mmm", "keep.mmm"):
+            with open(os.path.join(decoy, "d", nm), "w") as f:
+                f.write("bytecode of another project")
+        os.symlink("d", os.path.join(decoy, "dl"))
+        xenv["PWD"] = decoy
     before = snapshot(root)
     plan = case["plan"]
-    p = core.run_cmd(cwd, ["clean", arg], plan=plan, streams=case.get("streams", "pipes"))
+    p = core.run_cmd(cwd, ["clean", arg], plan=plan, streams=case.get("streams", "pipes"), extra_env=xenv)
     after = snapshot(root)
     st = core.stats_of([p], [plan.get("rules", [])])
     fired_hard = any(e["rule"] == "h" for e in p["events"])
@@ -336,6 +352,14 @@ def shrink(case):
     if case.get("streams") != "pipes":
         c = copy.deepcopy(case)
         c["streams"] = "pipes"
+        yield c
+    if case.get("stale_pwd"):
+        c = copy.deepcopy(case)
+        c["stale_pwd"] = False
+        yield c
+    if case["dir"] not in ("d", "."):
+        c = copy.deepcopy(case)
+        c["dir"] = "d"
         yield c
 
 
